@@ -12,8 +12,6 @@ checks = {
    text="Every function of package label that parses, prints or matches labels and patterns carries a functional contract (result = spec function of the unbounded input strings, error iff the documented grammar rejects); the sentences of the property (label round trip, //a/b = //a/b:b, :x relative to the current package, //p/... at component boundaries, //p:all, exact names) are ghost lemma functions verified against those contracts only. All obligations are discharged for all strings (no length or alphabet bound).",
    design_ref="DESIGN.md section 7 (C17)",
    note="Assumed: contracts of strings.HasPrefix/Index/LastIndex/Split (specs/10_externals.spec), SMT-LIB strings are sequences of code points (Go strings are bytes; proofs hold for the larger domain), UTF-8 decoding of range-over-string abstracted by three axioms, mathematical integers. Pattern print/re-parse preservation is attempted but not claimed (see DESIGN section 13)."),
-}
-
  "C09": dict(
    category="other",
    text="Proof that the byte stream hashed into the cache key equals a layout spec function of the abstract target state only (label, command, multiset of inputs, multiset of declared outputs incl. bin output, multiset of dependency digests, fingerprint map, platform unless multiplatform-cache; file contents in sorted path order), for every slice order and every map iteration order (the map-range loop is verified for an arbitrary pick of the next key). Hence no dependence on declaration/glob/map order, workspace location, time, host or scheduling. The injectivity half (no ambiguous concatenation) is decided per component boundary by lemmas over the layout spec; on the current tree four boundaries are refuted, each refutation is replayed on the real code under xxh3 and sha256 and recorded as a known finding, so the level is 'other', not 'proof'.",
